@@ -19,9 +19,10 @@ class Scenario:
     def add(self, line):
         self.lines.append(line)
 
-    def add_node(self, name, addr, idv, ro=False, aport=None, nodes=(), routers=(), start=0, traced=True):
-        self.lines.append("node %s %s id=%040x ro=%d aport=%s nodes=%s routers=%s start=%d" % (
-            name, addr.script(), idv, 1 if ro else 0, "-" if aport is None else str(aport),
+    def add_node(self, name, addr, idv, ro=False, aport=None, nodes=(), routers=(), start=0, traced=True, ro_default=False):
+        """ro_default: do not call set_read_only at all (the builder's documented default is read-only; pass ro=True with it)"""
+        self.lines.append("node %s %s id=%040x ro=%s aport=%s nodes=%s routers=%s start=%d" % (
+            name, addr.script(), idv, "-" if ro_default else ("1" if ro else "0"), "-" if aport is None else str(aport),
             ",".join(a.script() for a in nodes) or "-", ",".join(a.script() for a in routers) or "-", start))
         if traced:
             self.node = {"name": name, "addr": addr, "id": idv, "ro": ro, "aport": aport,
